@@ -23,7 +23,7 @@ PS = (3, 4, 2, 5, 3)
 def BOUNDS(tier):
     return {'orders': [2, 3, 4] if tier == 'quick' else [2, 3, 4, 5], 'sizes': 'P=%s with singleton substitutions; up to 10 thorough' % (PS,),
             'x_ranks': [1, 2, 3], 'z_ranks': [1, 2], 'seeds': 2 if tier == 'quick' else 4,
-            'forms': ['x/y', 's/y', 'x/s', 'elementwise_divide(eps in {1e-6,1e-10}, preconditioner in {None,c}, starting_tensor in {None, rank 2})']}
+            'scalars': 'positive and negative, python int / float, 0-d and 1-element tensors (f64, f32, i64)', 'forms': ['x/y', 's/y', 'x/s', 'elementwise_divide(eps in {1e-6,1e-10}, preconditioner in {None,c}, starting_tensor in {None, rank 2})']}
 
 
 def cases(tier, seed):
@@ -61,10 +61,10 @@ def cases(tier, seed):
                         if rx == 1:
                             yield dict(base, form='s/y', seed=sd, sk='float')
                     if rx == 1 and rz == 1:
-                        for sk in ('int', 't0d', 't1e'):
+                        for sk in ('int', 't0d', 't1e', 'neg', 'negint', 't0d_neg'):
                             yield dict(base, form='s/y', seed=0, sk=sk)
                     if rz == 1:
-                        for sk in ('int', 'float', 't0d', 'third', 't0d_f32', 't0d_i64', 't1e_f32', 'inexact'):
+                        for sk in ('int', 'float', 't0d', 'third', 't0d_f32', 't0d_i64', 't1e_f32', 'inexact', 'neg'):
                             yield dict(base, form='x/s', seed=0, sk=sk)
                     for eps in (1e-6, 1e-10):
                         for prec in (None, 'c'):
@@ -116,7 +116,7 @@ def run_case(c):
     if form == 'x/s':
         s, sv = {'int': (2, 2.0), 'float': (0.5, 0.5), 't0d': (torch.tensor(4.0, dtype=torch.float64), 4.0), 'third': (3.0, 3.0),
                  't0d_f32': (torch.tensor(3.0), 3.0), 't0d_i64': (torch.tensor(3), 3.0), 't1e_f32': (torch.tensor([1.7]), float(torch.tensor(1.7))),
-                 'inexact': (0.3, 0.3)}[c['sk']]
+                 'inexact': (0.3, 0.3), 'neg': (-0.5, -0.5)}[c['sk']]
         res, e = call(lambda: x / s)
         want = xd / sv
         if e is not None:
@@ -126,14 +126,15 @@ def run_case(c):
             viol.append(V(site + '.shape', str(getattr(res, 'N', type(res)))))
         else:
             got = ref.contract(res.cores)
-            tol = 4 * u * float(ref.absbound(cx)) / abs(sv) * (0 if c['sk'] in ('int', 'float', 't0d') else 1)
+            tol = 4 * u * float(ref.absbound(cx)) / abs(sv) * (0 if c['sk'] in ('int', 'float', 't0d', 'neg') else 1)
             if not ref.close(got, want, tol):
                 viol.append(V(site + '.value', 'max diff %.3e tol %.3e' % (ref.maxdiff(got, want), tol)))
         return Outcome(key, nt, 'x/s', violations=viol)
     if form == 'x/y':
         f, eps, num = (lambda: x / y), 1e-12, xd
     elif form == 's/y':
-        s, sv = {'float': (2.5, 2.5), 'int': (3, 3.0), 't0d': (torch.tensor(2.0, dtype=torch.float64), 2.0), 't1e': (torch.tensor([2.0], dtype=torch.float64), 2.0)}[c['sk']]
+        s, sv = {'float': (2.5, 2.5), 'int': (3, 3.0), 't0d': (torch.tensor(2.0, dtype=torch.float64), 2.0), 't1e': (torch.tensor([2.0], dtype=torch.float64), 2.0),
+                 'neg': (-2.5, -2.5), 'negint': (-3, -3.0), 't0d_neg': (torch.tensor(-2.0, dtype=torch.float64), -2.0)}[c['sk']]
         f, eps, num = (lambda: s / y), 1e-12, torch.full_like(yd, sv)
     elif form == 'ediv':
         st = None
